@@ -13,7 +13,8 @@ Inductive robs := ROk (crop var : list string) (z : list Z) (f : list float) | R
 Definition flat_rot (r : rotation float) : list lstr * list lstr * list Z * list float :=
   let es := ro_entries r in
   (map (fun e => re_crop e) es, map (fun e => re_var e) es,
-   map (fun e => re_saat e) es ++ map (fun e => re_ernte e) es ++ [ro_itag r; ro_sentinel r],
+   map (fun e => re_saat e) es ++ map (fun e => re_ernte e) es ++ [ro_itag r] ++
+   tab (S (List.length es)) (fun i => fold_left (fun a w => if Nat.eqb (fst w) i then snd w else a) (ro_sentinels r) 0),
    map (fun e => re_odu e) es ++ map (fun e => re_jn e) es ++ map (fun e => re_ertr e) es).
 
 Definition rot_cmp (m : res (rotation float)) (o : robs) : list Z :=
